@@ -16,6 +16,8 @@ pub enum EvKind {
     Bilinear(usize, usize),
     /// sin(w (t - x0)) - c y_i with c chosen so that t* is a root (falls back to Time if |y_i(t*)| < 0.1)
     SinT(f64, usize),
+    /// 1.5 + sin(w (t - x0)/len): no root at all (the placement is ignored)
+    Pos(f64),
 }
 
 #[derive(Serialize, Deserialize, Clone, Debug)]
@@ -24,6 +26,9 @@ pub struct EvRecipe {
     pub at: Place,
     pub dir: i8,
     pub terminal: Option<usize>,
+    /// the function is multiplied by 2^scale (exact: same roots, same signs)
+    #[serde(default)]
+    pub scale: i32,
 }
 
 pub fn ev_kind(n: usize) -> impl Strategy<Value = EvKind> {
@@ -32,6 +37,17 @@ pub fn ev_kind(n: usize) -> impl Strategy<Value = EvKind> {
         3 => proptest::collection::vec(crate::problems::fr(-1.0, 1.0), n..=n).prop_map(EvKind::Affine),
         2 => (0..n, 0..n).prop_map(|(i, j)| EvKind::Bilinear(i, j)),
         1 => (crate::problems::fr(1.0, 12.0), 0..n).prop_map(|(w, i)| EvKind::SinT(w, i)),
+        1 => crate::problems::fr(0.5, 40.0).prop_map(EvKind::Pos),
+    ]
+}
+
+/// power-of-two factors: mostly none, sometimes moderate, sometimes far outside [1e-150, 1e150]
+/// (products of two values then under- or overflow)
+pub fn ev_scale() -> impl Strategy<Value = i32> {
+    prop_oneof![
+        14 => Just(0),
+        3 => -70i32..=70,
+        3 => -1000i32..=900,
     ]
 }
 
@@ -45,7 +61,7 @@ pub fn ev_place() -> impl Strategy<Value = Place> {
 }
 
 pub fn recipe(n: usize, terminal: impl Strategy<Value = Option<usize>>) -> impl Strategy<Value = EvRecipe> {
-    (ev_kind(n), ev_place(), -1i8..=1, terminal).prop_map(|(kind, at, dir, terminal)| EvRecipe { kind, at, dir, terminal })
+    (ev_kind(n), ev_place(), -1i8..=1, terminal, ev_scale()).prop_map(|(kind, at, dir, terminal, scale)| EvRecipe { kind, at, dir, terminal, scale })
 }
 
 /// recipes sharing placement anchors so that several functions fire inside one step
@@ -81,10 +97,18 @@ pub fn resolve_recipes(rs: &[EvRecipe], grid: &[f64], sp: &Span, sol: &dyn Fn(f6
         let lo = sp.x0.min(sp.xend) + 1e-9 * len.max(1e-3);
         let hi = sp.x0.max(sp.xend) - 1e-9 * len.max(1e-3);
         ts = ts.max(lo).min(hi);
+        let wrap = |g: Ev| if r.scale == 0 { g } else { Ev::Scaled { k: r.scale, g: Box::new(g) } };
+        if let EvKind::Pos(w) = &r.kind {
+            // subnormal range too: the strictly positive function may be scaled down to 2^-1070
+            let g = Ev::Pos { omega: w / len.max(1e-300), t0: sp.x0 };
+            let k = if r.scale < -500 { r.scale - 70 } else { r.scale };
+            out.push((EvSpec { g: if k == 0 { g } else { Ev::Scaled { k, g: Box::new(g) } }, dir: r.dir, terminal: r.terminal }, f64::NAN));
+            continue;
+        }
         let y = match sol(ts) {
             Some(y) => y,
             None => {
-                out.push((EvSpec { g: Ev::Time { c: ts }, dir: r.dir, terminal: r.terminal }, ts));
+                out.push((EvSpec { g: wrap(Ev::Time { c: ts }), dir: r.dir, terminal: r.terminal }, ts));
                 continue;
             }
         };
@@ -98,6 +122,7 @@ pub fn resolve_recipes(rs: &[EvRecipe], grid: &[f64], sp: &Span, sol: &dyn Fn(f6
                 Ev::Affine { a, bt: 0.0, c }
             }
             EvKind::Bilinear(i, j) => Ev::Bilinear { i: *i % n, j: *j % n, c: y[*i % n] * y[*j % n] },
+            EvKind::Pos(_) => unreachable!(),
             EvKind::SinT(w, i) => {
                 let yi = y[*i % n];
                 if yi.abs() < 0.1 {
@@ -108,7 +133,7 @@ pub fn resolve_recipes(rs: &[EvRecipe], grid: &[f64], sp: &Span, sol: &dyn Fn(f6
                 }
             }
         };
-        out.push((EvSpec { g, dir: r.dir, terminal: r.terminal }, ts));
+        out.push((EvSpec { g: wrap(g), dir: r.dir, terminal: r.terminal }, ts));
     }
     out
 }
@@ -121,5 +146,7 @@ pub fn g_scale(e: &Ev, t: f64, y: &[f64]) -> f64 {
         Ev::SinT { c, i, omega, t0 } => 1.0 + (c * y[*i % y.len()]).abs() + (omega * (t - t0)).abs() * 1e-16 / f64::EPSILON * f64::EPSILON,
         Ev::Time { c } => t.abs() + c.abs(),
         Ev::Const { v } => v.abs(),
+        Ev::Scaled { k, g } => crate::instr::ldexp(g_scale(g, t, y), *k),
+        Ev::Pos { .. } => 2.5,
     }
 }
